@@ -292,7 +292,7 @@ def make_cases(tier, seed, n_random=None, n_productive=None, n_hist=None):
         for sr in (["Float", "Boolean"] if quick else ["Float", "FloatFrac", "Real", "Boolean", "MaxTimes"]):
             cases.append(dict(type="purity", name=name, g=g, sr=sr))
     # long contexts
-    lens = [60] if quick else [200, 300]
+    lens = [60] if quick else [120, 180]     # cubic in the context length on ambiguous grammars: 300 tokens cost > 300 CPU-seconds per case
     pool = [(n, g) for n, g in doms if g.V]
     k = 0
     for name, g in pool:
